@@ -139,6 +139,10 @@ def main_repeat_oracle(rng):
         inc = os.path.join(d, "inc.hera")
         top = os.path.join(d, "top.hera")
         open(top, "w").write('#include "inc.hera"\nINC(R2, 1)\n')
+        # the included file is first run on its own: having been a program must not matter when it is included later
+        # (seed C15g: the set of files being parsed had become shared by all parsers of the process)
+        open(inc, "w").write("SET(R5, 1)\n")
+        run_real(lambda: main(["--quiet", inc]))
         seen = []
         for val in (100, 200):
             open(inc, "w").write("SET(R5, %d)\n" % val)
